@@ -1,6 +1,7 @@
 package props
 
 import (
+	"fmt"
 	"go/token"
 	"go/types"
 	"strings"
@@ -13,7 +14,7 @@ import (
 func init() {
 	register(&Spec{ID: "C15", Title: "The packet queue behaves as a byte FIFO across packet boundaries", Run: runC15,
 		Meta: core.Meta{
-			Explanation: "Clauses of the FIFO property whose truth is in the shape of the code; the step-by-step equality with a flat byte model is not decided. R15.1 (io.Reader / io.Writer clause): in every method of the module with the io.Reader signature the caller's slice is written (operand of copy, of an element store, or handed to a callee that does); PacketQueue.Write hands its slice to WriteBytes. R15.2 (typed read/write sibling table): UintK = Bytes(K/8) + endian.UintK, WriteUintK = make([]byte, K/8) + endian.PutUintK + WriteBytes, IntK/WriteIntK delegate to the unsigned sibling of the same width through a conversion, Byte/WriteByte use one byte, String/WriteString delegate to Bytes/WriteBytes; the package-level `endian` is assigned nowhere after its initialiser. R15.3: Bytes returns only nil/ErrNotEnoughBytes and succeeds only when n bytes were copied (C07 R07.2). R15.4: Reset assigns all four state fields. R15.5: AllPacketsConsumed's answer always depends on the packet index having reached the end of the queue: every non-false answer is a comparison of indexPacket with len(queue), or is computed under such a comparison. R15.6: the live packet size (packetSize()) only sizes NEW packets; free space in the packet being filled is computed from that packet's own header length/body (a size change while a packet is partly filled must not change its capacity). R15.7: DiscardUntilCurrentPosition evaluates its end-of-packet test after the queue was shifted and indexPacket reset, on queue[indexPacket] (the packet under the position). R15.8: AddPacket changes nothing but recvEOM and queue = append(queue, packet). R15.10: SetPosition stores both of its parameters into indexPacket/indexData on every path (a position obtained from Position() is always a valid position, including the one just behind the last packet). R15.1 also requires that Read asks Bytes for exactly len(p) bytes of its parameter and copies into that parameter. R15.9 = R02.6 (read results are fresh buffers).",
+			Explanation: "Clauses of the FIFO property whose truth is in the shape of the code; the step-by-step equality with a flat byte model is not decided. R15.1 (io.Reader / io.Writer clause): in every method of the module with the io.Reader signature the caller's slice is written (operand of copy, of an element store, or handed to a callee that does); PacketQueue.Write hands its slice to WriteBytes. R15.2 (typed read/write sibling table): UintK = Bytes(K/8) + endian.UintK, WriteUintK = make([]byte, K/8) + endian.PutUintK + WriteBytes, IntK/WriteIntK delegate to the unsigned sibling of the same width through a conversion, Byte/WriteByte use one byte, String/WriteString delegate to Bytes/WriteBytes; the package-level `endian` is assigned nowhere after its initialiser. R15.3: Bytes returns only nil/ErrNotEnoughBytes and succeeds only when n bytes were copied (C07 R07.2). R15.4: Reset assigns all four state fields. R15.5: AllPacketsConsumed's answer always depends on the packet index having reached the end of the queue: every non-false answer is a comparison of indexPacket with len(queue), or is computed under such a comparison. R15.6: the live packet size (packetSize()) only sizes NEW packets; free space in the packet being filled is computed from that packet's own header length/body (a size change while a packet is partly filled must not change its capacity). R15.7: DiscardUntilCurrentPosition evaluates its end-of-packet test after the queue was shifted and indexPacket reset, on queue[indexPacket] (the packet under the position). The test includes equality (indexData >= len or == len): a packet consumed exactly to its end is dropped. R15.11: every error return of Bytes lies on the true edge of AllPacketsConsumed() — an empty or exhausted packet in front of further data is stepped over, not reported as the end. R15.12 (E-OWN): every store to Packet.Data in the module assigns nil, a slice allocated by make in the same function, or a slice of the same packet's Data; storing (a slice of) a caller's buffer would make later reads return whatever the caller writes into it afterwards. R15.8: AddPacket changes nothing but recvEOM and queue = append(queue, packet). R15.10: SetPosition stores both of its parameters into indexPacket/indexData on every path (a position obtained from Position() is always a valid position, including the one just behind the last packet). R15.1 also requires that Read asks Bytes for exactly len(p) bytes of its parameter and copies into that parameter. R15.9 = R02.6 (read results are fresh buffers).",
 			NotDecided:  "Copy arithmetic across packets, discard, fill order and position save/restore semantics are not decided.",
 			Assumptions: []string{"encoding/binary ByteOrder semantics"},
 		}})
@@ -28,6 +29,8 @@ func runC15(r *core.Run) {
 	r.Rule("R15.4", "Reset restores the whole state", 1, false)
 	r.Rule("R15.5", "AllPacketsConsumed depends on the packet index reaching the end of the queue", 1, false)
 	r.Rule("R15.7", "DiscardUntilCurrentPosition drops the packet under the position only, after the shift", 1, false)
+	r.Rule("R15.11", "Bytes reports not-enough-bytes only when every queued packet is consumed", 1, false)
+	r.Rule("R15.12", "packet bodies are the queue's own memory: Packet.Data is assigned nil, a fresh make, or a slice of itself", 4, false)
 	r.Rule("R15.8", "AddPacket only appends: it neither moves the position nor drops queued packets", 1, false)
 	r.Rule("R15.9", "read results do not alias queue storage", 1, false)
 	r.Rule("R15.10", "SetPosition restores exactly the given position, unconditionally", 1, false)
@@ -65,7 +68,9 @@ func runC15(r *core.Run) {
 	c15Reset(r)
 	c15Consumed(r)
 	c15PacketSize(r)
-	c15Discard(r)
+	c15Discard(r, "R15.7")
+	c15BytesFailsOnlyWhenEmpty(r)
+	c15DataOwnership(r)
 	c15AddPacket(r)
 	c15SetPosition(r)
 	c15ReadExact(r)
@@ -390,7 +395,7 @@ func c15PacketSize(r *core.Run) {
 // the packet under the (reset) position, i.e. it is evaluated after the
 // queue was shifted by indexPacket and indexPacket was set to 0, and it
 // indexes the queue with indexPacket.
-func c15Discard(r *core.Run) {
+func c15Discard(r *core.Run, rule string) {
 	p := r.Prog
 	fn := p.Func("tds", "PacketQueue", "DiscardUntilCurrentPosition")
 	fQueue := p.Field("tds", "PacketQueue", "queue")
@@ -423,7 +428,7 @@ func c15Discard(r *core.Run) {
 	}
 	key := "DiscardUntilCurrentPosition: end-of-packet test after the shift, on the packet under the position"
 	if shift == nil || zero == nil {
-		r.Bad("R15.7", key, fn.Pos(), "the queue is not shifted by indexPacket with indexPacket reset to 0")
+		r.Bad(rule, key, fn.Pos(), "the queue is not shifted by indexPacket with indexPacket reset to 0")
 		return
 	}
 	// the comparison indexData >= len(queue[k].Data)
@@ -464,11 +469,13 @@ func c15Discard(r *core.Run) {
 			ok, why = false, "the end-of-packet test is evaluated before the queue is shifted: it looks at the oldest packet instead of the packet under the position, so that packet can be dropped with unread bytes"
 		case fi != fIdxP:
 			ok, why = false, "the end-of-packet test does not index the queue with indexPacket"
+		case bo.Op == token.GTR || bo.Op == token.LEQ:
+			ok, why = false, "the end-of-packet test is strict (indexData "+bo.Op.String()+" len(Data)): a packet consumed exactly to its end stays in the queue, so a full packet that was sent is sent again with the next flush (and a parsed one is parsed again)"
 		default:
 			ok = true
 		}
 	}
-	r.Check(ok, "R15.7", key, fn.Pos(), "shift, indexPacket = 0, then indexData >= len(queue[indexPacket].Data)", why)
+	r.Check(ok, rule, key, fn.Pos(), "shift, indexPacket = 0, then indexData >= len(queue[indexPacket].Data)", why)
 }
 
 // c15AddPacket: the only field AddPacket may change besides recvEOM is the
@@ -575,4 +582,67 @@ func c15ReadExact(r *core.Run) {
 		}
 	}
 	r.Check(okLen && okCopy, "R15.1", "(*tds.PacketQueue).Read: asks for len(p) bytes and copies into p", fn.Pos(), "Bytes(len(p)); copy(p, ...)", "Read does not request exactly len(p) bytes of the caller's buffer and copy into that buffer: with enough bytes queued it returns fewer than len(p) bytes with a nil error and leaves the tail of the buffer untouched")
+}
+
+// c15BytesFailsOnlyWhenEmpty: R15.11.
+func c15BytesFailsOnlyWhenEmpty(r *core.Run) {
+	p := r.Prog
+	fn := p.Func("tds", "PacketQueue", "Bytes")
+	apc := p.Func("tds", "PacketQueue", "AllPacketsConsumed")
+	why, n := "", 0
+	for _, ret := range core.Returns(fn) {
+		rv := core.RetVals(ret)
+		if core.IsNil(rv[len(rv)-1]) {
+			continue
+		}
+		n++
+		under := false
+		for _, g := range core.GuardsAt(ret) {
+			if c, ok := g.Cond.(*ssa.Call); ok && core.StaticCallee(c) == apc && g.Pol {
+				under = true
+			}
+		}
+		if !under {
+			why = "Bytes can fail (" + p.Pos(ret.Pos()) + ") although AllPacketsConsumed() did not answer true: bytes queued behind an empty or exactly exhausted packet become unreadable and the position is stuck in front of them"
+		}
+	}
+	r.Check(why == "" && n > 0, "R15.11", "Bytes: error returns only under AllPacketsConsumed()", fn.Pos(), fmt.Sprintf("%d error return(s), all on the true edge of AllPacketsConsumed()", n), why)
+}
+
+// c15DataOwnership: R15.12.
+func c15DataOwnership(r *core.Run) {
+	p := r.Prog
+	fData := p.Field("tds", "Packet", "Data")
+	for _, fn := range p.ModuleFuncs() {
+		for _, b := range fn.Blocks {
+			for _, in := range b.Instrs {
+				st, ok := in.(*ssa.Store)
+				if !ok {
+					continue
+				}
+				fa, ok := st.Addr.(*ssa.FieldAddr)
+				if !ok || core.FieldOfAddr(fa) != fData {
+					continue
+				}
+				key := core.FuncName(fn) + ": Packet.Data assigned"
+				v := st.Val
+				good := core.IsNil(v)
+				if _, isMk := core.MakeLen(v); isMk {
+					good = true
+				}
+				if _, isMS := v.(*ssa.MakeSlice); isMS {
+					good = true
+				}
+				if sl, isSl := v.(*ssa.Slice); isSl {
+					if f, base := core.FieldLoad(sl.X); f == fData && base == fa.X {
+						good = true // trimming the packet's own body
+					}
+					if _, isAl := sl.X.(*ssa.Alloc); isAl {
+						good = true // make lowered to new [k]T + slice
+					}
+				}
+				r.Check(good, "R15.12", key, st.Pos(), "nil, a fresh make, or a slice of the packet's own Data", "a packet body is set to "+core.Expr(v)+", memory the queue does not own: what is read back later is whatever the owner of that buffer has written into it in the meantime, not the bytes that were written to the queue")
+			}
+		}
+	}
 }
